@@ -371,6 +371,43 @@ def chain_direct_sum_rule(chk, src):
                "labels of self (moved to other's centre) followed by other's; boundary labels reset; centre and direction of other", line=fi.node.lineno)
 
 
+
+def overlap_rule(chk, src):
+    """MatrixProduct.dot: the transfer step joins the running matrix (self bond, other bond) with both site tensors over their left bonds and contracts all physical
+    (and ancilla) indices pairwise; the result has the same axis order (loop invariant)"""
+    fi = src.func(MP, "MatrixProduct.dot")
+    loop = [n for n in ast.walk(fi.node) if isinstance(n, ast.For)]
+    if len(loop) != 1:
+        raise AnalysisError(f"{fi.where}: transfer loop not found")
+    tgt = [x.id for x in loop[0].target.elts] if isinstance(loop[0].target, ast.Tuple) else []
+    it = unparse(loop[0].iter).replace(" ", "")
+    if len(tgt) != 2 or it != "zip(self,other)":
+        raise AnalysisError(f"{fi.where}: loop header is not `for a, b in zip(self, other)`")
+    n_self, n_other = tgt
+    for ndim in (3, 4):
+        tr = Tracker({"e0": [("E", "self"), ("E", "other")], n_self: [("S", k) for k in range(ndim)], n_other: [("O", k) for k in range(ndim)]})
+
+        def run(stmts):
+            for st in stmts:
+                if isinstance(st, ast.Assign) and isinstance(st.targets[0], ast.Name):
+                    tr.env[st.targets[0].id] = tr.ev(st.value)
+                elif isinstance(st, ast.If):
+                    t = unparse(st.test).replace(" ", "")
+                    if ".ndim==" in t:
+                        run(st.body if int(t.split("==")[1]) == ndim else st.orelse)
+                elif isinstance(st, (ast.Expr, ast.Assert)):
+                    continue
+        run(loop[0].body)
+        out = tr.env["e0"]
+        edges = {frozenset(e) for e in tr.edges}
+        want_edges = {frozenset([("E", "self"), ("S", 0)]), frozenset([("E", "other"), ("O", 0)])} | {frozenset([("S", k), ("O", k)]) for k in range(1, ndim - 1)}
+        ok = out == [("S", ndim - 1), ("O", ndim - 1)] and edges == want_edges
+        chk.ob("overlap-network", f"MatrixProduct.dot transfer step [rank {ndim}]", ok, fi.where, {"result axes": out, "contractions": sorted(map(sorted, edges))},
+               {"result axes": [("S", ndim - 1), ("O", ndim - 1)], "contractions": sorted(map(sorted, want_edges))}, line=loop[0].lineno,
+               detail="the overlap <self|other> is built by one transfer step per site; joining a bond of `self` with a bond of `other`, skipping a physical index, or returning the matrix "
+                      "transposed (which the next step then contracts with the wrong tensors) gives a number that is not the inner product")
+
+
 def run(chk):
     src = chk.src
     chk.explanation = (
@@ -388,6 +425,8 @@ def run(chk):
     run_label_freshness(chk, src)
     chk.rule("chain-direct-sum", "abstract run of MatrixProduct.add (state and operator form)", 4)
     chain_direct_sum_rule(chk, src)
+    chk.rule("overlap-network", "transfer-matrix step of MatrixProduct.dot", 2)
+    overlap_rule(chk, src)
     chk.rule("adjoint", "complex conjugate / adjoint act site by site (abstract run)", 3)
     adjoint_rule(chk, src)
     chk.rule("prefactor", "scalar prefactor kept separately from tensors is folded / conjugated / applied consistently", 8)
